@@ -29,6 +29,10 @@ TABLE = [
     ("map.set((a: (b: 1)), a, b, 2)", "(a: (b: 2))"), ("map.set((a: (b: 1)), a, c, 2)", "(a: (b: 1, c: 2))"), ("map.set((a: 1), a, b, 2)", "(a: (b: 2))"),
     ("map.set((a: 1), x, y, 2)", "(a: 1, x: (y: 2))"), ("map.merge((a: (b: 1)), a, (c: 2))", "(a: (b: 1, c: 2))"),
     ("map.deep-remove((a: (b: 1, c: 2)), a, b)", "(a: (c: 2))"),
+    # a key path that leaves the existing maps: everything after the first missing (or non-map) key starts from an empty map
+    ("map.set((a: (b: 1)), x, a, c, 2)", "(a: (b: 1), x: (a: (c: 2)))"), ("map.merge((a: (b: 1)), x, a, (c: 2))", "(a: (b: 1), x: (a: (c: 2)))"),
+    ("map.set((a: (b: 1), c: 5), c, a, d, 2)", "(a: (b: 1), c: (a: (d: 2)))"), ("map.get(map.set((a: (b: 1)), x, a, c, 2), x, a, b)", "null"),
+    ("map.set((a: (b: (c: 1))), a, x, b, 2)", "(a: (b: (c: 1), x: (b: 2)))"), ("map.merge((a: (b: (c: 1))), a, x, (b: 2))", "(a: (b: (c: 1), x: (b: 2)))"),
     # left open: map.deep-remove with a missing first key (grass adds "x: null", mirroring the reference implementation's code)
     ("map.deep-merge((a: (b: 1, c: 2), d: 3), (a: (c: 9, e: 4)))", "(a: (b: 1, c: 9, e: 4), d: 3)"),
     ("map.keys((a: 1, b: 2))", "a, b"), ("map.values((a: 1, b: 2))", "1, 2"), ("map-remove((a: 1, b: 2, c: 3), a, c)", "(b: 2)"),
